@@ -719,6 +719,45 @@ theorem state_matches_source :
     Gen.C12.intPoolDecls = ["NewIntPool", "IntPool.Get"] := by
   decide
 
+/-- **Tie to the TOOLCHAIN's source (regenerated on every run from GOROOT/src of the Go that builds
+`rare`)**: the library code the model mirrors is not part of /repo, so its text is pinned as well –
+`internal/stringslite.Index` statement by statement (the five `switch` arms, the amd64 arm with
+`MaxBruteForce`, `fails++; i++`, `fails > bytealg.Cutover(i)`, `IndexString(s[i:], substr)`; the
+portable loop with `i++; fails++`, `fails >= 4+i>>4 && i < t`, `IndexRabinKarp(s[i:], substr)`),
+`bytealg.IndexRabinKarp`, `bytealg.HashStr`, `Cutover`, the two values of `MaxLen`, and the constants
+`PrimeRK`, `MaxBruteForce` – are what `goIndexAmd64` / `goIndexLoopAsm` / `goIndexLoop` / `indexRabinKarp`
+/ `hashBytes` / `powLoop` / `cutoverAmd64` mirror.  A toolchain whose search differs breaks this theorem
+instead of leaving `go_index_eq_contract` to speak about code that no longer runs. -/
+theorem stdlib_index_matches_source :
+    Gen.C12.stdIndexSkeleton =
+      ["n := len(substr)", "switch", "case n == 0", "return 0", "case n == 1", "return IndexByte(s, substr[0])",
+       "case n == len(s)", "if substr == s", "return 0", "end", "return -1", "case n > len(s)", "return -1",
+       "case n <= bytealg.MaxLen", "if len(s) <= bytealg.MaxBruteForce", "return bytealg.IndexString(s, substr)", "end",
+       "c0 := substr[0]", "c1 := substr[1]", "i := 0", "t := len(s) - n + 1", "fails := 0", "for ; i < t; ",
+       "if s[i] != c0", "o := IndexByte(s[i+1:t], c0)", "if o < 0", "return -1", "end", "i += o + 1", "end",
+       "if s[i+1] == c1 && s[i:i+n] == substr", "return i", "end", "fails++", "i++", "if fails > bytealg.Cutover(i)",
+       "r := bytealg.IndexString(s[i:], substr)", "if r >= 0", "return r + i", "end", "return -1", "end", "end",
+       "return -1", "end",
+       "c0 := substr[0]", "c1 := substr[1]", "i := 0", "t := len(s) - n + 1", "fails := 0", "for ; i < t; ",
+       "if s[i] != c0", "o := IndexByte(s[i+1:t], c0)", "if o < 0", "return -1", "end", "i += o + 1", "end",
+       "if s[i+1] == c1 && s[i:i+n] == substr", "return i", "end", "i++", "fails++", "if fails >= 4+i>>4 && i < t",
+       "j := bytealg.IndexRabinKarp(s[i:], substr)", "if j < 0", "return -1", "end", "return i + j", "end", "end",
+       "return -1"] ∧
+    Gen.C12.stdRabinKarpSkeleton =
+      ["hashss, pow := HashStr(sep)", "n := len(sep)", "var h uint32", "for i := 0; i < n; i++",
+       "h = h*PrimeRK + uint32(s[i])", "end", "if h == hashss && string(s[:n]) == string(sep)", "return 0", "end",
+       "for i := n; i < len(s); ", "h *= PrimeRK", "h += uint32(s[i])", "h -= pow * uint32(s[i-n])", "i++",
+       "if h == hashss && string(s[i-n:i]) == string(sep)", "return i - n", "end", "end", "return -1"] ∧
+    Gen.C12.stdHashStrSkeleton =
+      ["hash := uint32(0)", "for i := 0; i < len(sep); i++", "hash = hash*PrimeRK + uint32(sep[i])", "end",
+       "var pow, sq uint32 = 1, PrimeRK", "for i := len(sep); i > 0; i >>= 1", "if i&1 != 0", "pow *= sq", "end",
+       "sq *= sq", "end", "return hash, pow"] ∧
+    Gen.C12.stdCutoverSkeleton = ["return (n + 16) / 8"] ∧
+    Gen.C12.stdAmd64InitSkeleton = ["if cpu.X86.HasAVX2", "MaxLen = 63", "else", "MaxLen = 31", "end"] ∧
+    Gen.C12.stdPrimeRK = primeRK.toNat ∧ Gen.C12.stdMaxBruteForce = maxBruteForce ∧
+    (∀ n, cutoverAmd64 n = (n + 16) / 8) :=
+  ⟨rfl, rfl, rfl, rfl, rfl, by decide, by decide, fun _ => rfl⟩
+
 /-! ### Non-vacuity: the hypotheses above are satisfiable on concrete, non-trivial values -/
 
 /-- `k=%{x} %{?s};%{y}` -/
